@@ -24,18 +24,40 @@ open CffiVerif.ConstExpr CffiVerif.CConstExpr
 theorem c_div_is_tdiv (a b : Int) (hb : b ≠ 0) : cDiv a b = .ok (a.tdiv b) :=
   cDiv_eq_tdiv a b hb
 
+/-- The same, stated on the definition translated from `Parser._c_div` on this run. -/
+theorem gen_c_div_is_tdiv (a b : Int) (hb : b ≠ 0) :
+    CffiVerif.Generated.ConstExprPy.c_div a b = .ok (a.tdiv b) :=
+  ConstExpr.gen_c_div_is_tdiv a b hb
+
+/-- The operator dispatch translated from `_parse_constant` on this run: each of the ten operator
+strings selects the modelled Python operator (with the `right < 0` guard on shifts and the `%`
+rule `left - _c_div(left, right) * right`), any other string reaches `raise FFIError`. -/
+theorem gen_dispatch_is_modelled (op : BinOp) (l r : Int) :
+    CffiVerif.Generated.ConstExprPy.parse_constant_binop l r op.symbol = applyBinSpec op l r ∧
+    (∀ s : String, s ∉ ["+", "-", "*", "/", "%", "<<", ">>", "&", "|", "^"] →
+      CffiVerif.Generated.ConstExprPy.parse_constant_binop l r s = .error .ffi) :=
+  ⟨applyBin_def op l r, fun s h => other_operator_is_ffi l r s h⟩
+
+/-- The literal rules extracted from the `Constant` block on this run are the modelled ones
+(digit test, rstrip characters, leading-0 octal, 0x / 0b fall-backs failing with `CDefError`,
+`_SIMPLE_ESCAPES`): the evaluator built on them has the closed form the other theorems use. -/
+theorem gen_literal_rules_are_modelled (tok : List Char) (c : Char) :
+    parseConst tok = parseConstSpec tok ∧ simpleEscape c = simpleEscapeSpec c ∧
+    isSuffixChar c = (c == 'u' || c == 'U' || c == 'l' || c == 'L') :=
+  ⟨parseConst_def tok, simpleEscape_def c, isSuffixChar_def c⟩
+
 /-- `left - _c_div(left, right) * right` is C's remainder (sign of the dividend). -/
 theorem c_mod_is_tmod (a b : Int) (hb : b ≠ 0) : applyBin .mod a b = .ok (a.tmod b) :=
   cMod_eq_tmod a b hb
 
 /-- Error branch: division and remainder by zero raise `CDefError`. -/
 theorem c_div_by_zero (a : Int) : cDiv a 0 = .error .cdef ∧ applyBin .mod a 0 = .error .cdef := by
-  simp [cDiv, applyBin, bind, Except.bind]
+  simp [cDiv_def, cDivSpec, applyBin_def, applyBinSpec, bind, Except.bind]
 
 /-- Error branch: a negative shift count raises `CDefError` (both directions). -/
 theorem shift_negative_count (a b : Int) (hb : b < 0) :
     applyBin .shl a b = .error .cdef ∧ applyBin .shr a b = .error .cdef := by
-  simp [applyBin, hb]
+  simp [applyBin_def, applyBinSpec, hb]
 
 /-- Error branch: nodes outside the grammar and unknown names raise `FFIError`. -/
 theorem unsupported_is_ffi_error (env : ConstExpr.Env) (n : String) (h : env n = none) :
